@@ -70,7 +70,8 @@ def resolve_target(path, qualname):
 
 def clause_methods(cls):
     pre = cls.__dict__.get('pre')
-    posts = [(n, f) for n, f in cls.__dict__.items() if callable(f) and (n == 'post' or n.startswith('post_'))]
+    vo = tuple(getattr(cls, 'verifier_only', ()))      # clauses stated with == on trees: identity natively, structural in proofs
+    posts = [(n, f) for n, f in cls.__dict__.items() if callable(f) and (n == 'post' or n.startswith('post_')) and n not in vo]
     known = [(n, f) for n, f in cls.__dict__.items() if callable(f) and n.startswith('known_')]
     return pre, posts, known
 
